@@ -21,7 +21,48 @@ const (
 	FaultNone = 0
 	FaultErr  = 1 // the operation returns an error
 	FaultEOF  = 2 // RecvMessage returns io.EOF (peer hung up)
+	// FaultFull: NewMessage hands out a message whose arena has room for the root Message struct and nothing more
+	// (a transport with a fixed-size send buffer that is exhausted): building the message fails
+	FaultFull = 3
 )
+
+// fullArena is a one-segment arena of fixed capacity.
+type fullArena struct {
+	buf  []byte
+	used bool
+}
+
+func (a *fullArena) NumSegments() int64 {
+	if a.used {
+		return 1
+	}
+	return 0
+}
+
+func (a *fullArena) Data(id capnp.SegmentID) ([]byte, error) {
+	if id != 0 || !a.used {
+		return nil, errors.New("rpcsim: segment out of range")
+	}
+	return a.buf, nil
+}
+
+func (a *fullArena) Allocate(minsz capnp.Size, segs map[capnp.SegmentID]*capnp.Segment) (capnp.SegmentID, []byte, error) {
+	if !a.used {
+		a.used = true
+		if int(minsz) > cap(a.buf) {
+			return 0, nil, errors.New("rpcsim: send buffer exhausted")
+		}
+		return 0, a.buf[:0], nil
+	}
+	data := a.buf
+	if s := segs[0]; s != nil {
+		data = s.Data()
+	}
+	if cap(data)-len(data) < int(minsz) {
+		return 0, nil, errors.New("rpcsim: send buffer exhausted")
+	}
+	return 0, data, nil
+}
 
 // OpKind of a transport operation.
 const (
@@ -97,7 +138,11 @@ func (w *Wire) NewMessage(ctx context.Context) (rpccp.Message, func() error, cap
 	if f == FaultErr {
 		return rpccp.Message{}, nil, nil, ErrInjected
 	}
-	msg, seg, err := capnp.NewMessage(capnp.MultiSegment(nil))
+	var arena capnp.Arena = capnp.MultiSegment(nil)
+	if f == FaultFull {
+		arena = &fullArena{buf: make([]byte, 0, 24)} // root pointer + Message{8 data bytes, 1 pointer}
+	}
+	msg, seg, err := capnp.NewMessage(arena)
 	if err != nil {
 		return rpccp.Message{}, nil, nil, err
 	}
